@@ -196,6 +196,113 @@ out.append("def ociNamePattern : Bytes := " + bl(pattern))
 m = re.search(r"const\s+NAME\s*:\s*&'static\s+str\s*=\s*\"([^\"]*)\"", nsrc)
 out.append("def ociConstraintName : Bytes := " + bl(m.group(1) if m else ""))
 
+# --- C17: what the example hands to `Router::search` — the glue between a request and the route table. The expression is
+# followed back through `let` bindings; borrowing and copying (`&`, `to_owned`, `to_string`, `clone`, `as_str`, `into`, …) are
+# the identity on the text; whatever is left is the provenance of the searched path (`REQ.uri().path()` on the unchanged tree).
+IDENT_SUFFIX = re.compile(r"\.(?:to_owned|to_string|into_owned|clone|as_str|as_ref|into|borrow|to_str|as_deref)\(\)$")
+
+
+def balanced_arg(src, start):
+    """text between the parenthesis opened at src[start-1] and its partner"""
+    depth, i = 1, start
+    while i < len(src) and depth:
+        depth += src[i] in "([{"
+        depth -= src[i] in ")]}"
+        i += 1
+    return src[start:i - 1]
+
+
+def bound_expr(src, pos, var):
+    """(expression, position, through a pattern?) of the last `let` before pos that binds var"""
+    best = None
+    for m_ in re.finditer(r"let\s+(?:(Ok|Some)\(\s*)?(?:mut\s+)?" + re.escape(var) + r"\s*\)?\s*(?::[^=;]+)?=(?!=)", src[:pos]):
+        best = m_
+    if not best:
+        return None
+    i, depth = best.end(), 0
+    while i < len(src):
+        c = src[i]
+        if depth == 0 and (c == ";" or re.match(r"\belse\b", src[i:])):
+            break
+        depth += c in "([{"
+        depth -= c in ")]}"
+        i += 1
+    return src[best.end():i].strip(), best.start(), bool(best.group(1))
+
+
+def provenance(src, call_pos, expr):
+    pos = call_pos
+    for _ in range(12):
+        expr = expr.strip()
+        changed = True
+        while changed:
+            changed = False
+            e2 = re.sub(r"^[&*]\s*(?:mut\s+)?", "", expr)
+            e2 = IDENT_SUFFIX.sub("", e2)
+            m_ = re.fullmatch(r"(?:String::from|Cow::from|Cow::Borrowed|std::borrow::Cow::Borrowed)\((.*)\)", e2, flags=re.S)
+            if m_:
+                e2 = m_.group(1).strip()
+            if e2 != expr:
+                expr, changed = e2, True
+        m_ = re.fullmatch(r"([A-Za-z_]\w*)((?:\..*)?)", expr, flags=re.S)
+        if m_:
+            b_ = bound_expr(src, pos, m_.group(1))
+            if not b_:
+                break
+            head, pos, _ = b_
+            # the receiver of a method chain is resolved too (`let uri = req.uri().clone(); … uri.path()`)
+            head = IDENT_SUFFIX.sub("", re.sub(r"^[&*]\s*", "", head.strip()))
+            expr = head + m_.group(2)
+            continue
+        break
+    expr = re.sub(r"\s+", "", expr)
+    return re.sub(r"^[A-Za-z_]\w*(?=\.uri\(\)\.path\(\)$)", "REQ", expr)
+
+
+def split_top(args):
+    parts, depth, cur = [], 0, ""
+    for c in args:
+        if c == "," and depth == 0:
+            parts.append(cur)
+            cur = ""
+            continue
+        depth += c in "([{<"
+        depth -= c in ")]}>"
+        cur += c
+    if cur.strip():
+        parts.append(cur)
+    return [p_.strip() for p_ in parts]
+
+
+def through_calls(src_, call_pos, arg, depth=0):
+    """provenance of `arg` at call_pos; a parameter of the enclosing function is followed to that function's call site"""
+    fn_start = max(0, src_.rfind(" fn ", 0, call_pos))
+    prov = provenance(src_[fn_start:], call_pos - fn_start, arg)
+    m_ = re.match(r"\s*fn\s+(\w+)\s*(?:<[^>]*>)?\s*\(", src_[fn_start:])
+    if depth < 3 and m_ and re.fullmatch(r"[A-Za-z_]\w*", prov):
+        params = [p_ for p_ in split_top(balanced_arg(src_, fn_start + m_.end())) if not re.fullmatch(r"&?\s*(?:'\w+\s+)?(?:mut\s+)?self", p_)]
+        names = [re.sub(r"^mut\s+", "", p_.split(":")[0].strip()) for p_ in params]
+        if prov in names:
+            for c_ in re.finditer(r"(?<!fn )\b" + m_.group(1) + r"\(", src_):
+                if src_[max(0, c_.start() - 3):c_.start()] == "fn ":
+                    continue
+                args = split_top(balanced_arg(src_, c_.end()))
+                if len(args) == len(names):
+                    return through_calls(src_, c_.start(), args[names.index(prov)], depth + 1)
+    return prov
+
+
+search_arg = ""
+for rel in all_rs("examples/oci/src"):
+    src_ = strip_comments(read(rel))
+    m_ = re.search(r"\.search\(", src_)
+    if m_:
+        search_arg = through_calls(src_, m_.start(), balanced_arg(src_, m_.end()))
+        break
+status["oci_search_arg"] = "ok" if search_arg else "unavailable"
+out.append("/-- provenance of the path the example hands to `Router::search` (borrowing and copying removed) -/")
+out.append("def ociSearchArg : Bytes := " + bl(search_arg))
+
 # --- C19: the format strings of the route-table errors (`impl Display` of src/errors/{insert,delete,constraint}.rs)
 def unescape(lit, raw):
     return lit if raw else lit.encode("utf-8").decode("unicode_escape").encode("latin-1").decode("utf-8")
